@@ -52,7 +52,7 @@ struct StackT {
 
 pub const BASE: usize = 0x6100_0000_0000;
 pub const PAGE: usize = 4096;
-pub const PAGES: usize = 1 << 14;
+pub const PAGES: usize = 1 << 17;
 const MAX_BLOCK_PAGES: usize = 64;
 
 const FREE: u8 = 0;
@@ -82,9 +82,34 @@ pub static IN_WEAK: AtomicBool = AtomicBool::new(false);
 /// allocator are still counted.
 static COUNT_ONLY_LIVE: AtomicUsize = AtomicUsize::new(0);
 
+/// Address-reuse mode (a per-run knob): like a real allocator, a freed block is handed
+/// out again for the next request of the same size (LIFO per size class). The freed
+/// page stays inaccessible until it is reused, so use-after-free detection is only lost
+/// for blocks that have been reused; what is gained are bugs that need an OLD address
+/// to come back (stale caches or records that are only compared, never dereferenced).
+static REUSE_ON: AtomicBool = AtomicBool::new(false);
+const NCLASS: usize = 64;
+const CLASS_CAP: usize = 32;
+static mut FREE_LIST: [[u32; CLASS_CAP]; NCLASS] = [[0; CLASS_CAP]; NCLASS];
+static mut FREE_OFF: [[u16; CLASS_CAP]; NCLASS] = [[0; CLASS_CAP]; NCLASS];
+static mut FREE_LEN: [u8; NCLASS] = [0; NCLASS];
+static REUSED: AtomicUsize = AtomicUsize::new(0);
+
+fn class_of(size: usize) -> Option<usize> {
+    let c = (size + 15) / 16;
+    if c < NCLASS {
+        Some(c)
+    } else {
+        None
+    }
+}
+
 static mut STATE: [u8; PAGES] = [0; PAGES];
 static mut SIZE: [u32; PAGES] = [0; PAGES];
 static mut NPG: [u8; PAGES] = [0; PAGES];
+/// bumped every time a page becomes the head of a block: (address, generation) names a
+/// block even when addresses are reused
+static mut GEN: [u32; PAGES] = [0; PAGES];
 static mut TOUCHED: [u32; PAGES] = [0; PAGES];
 static mut ALT_STACK: [u8; 1 << 16] = [0; 1 << 16];
 
@@ -150,6 +175,28 @@ unsafe impl GlobalAlloc for SimAlloc {
             COUNT_ONLY_LIVE.fetch_add(1, Relaxed);
             return System.alloc(l);
         }
+        if REUSE_ON.load(Relaxed) && npages == 1 {
+            if let Some(c) = class_of(l.size()) {
+                let n = FREE_LEN[c] as usize;
+                if n > 0 && lrand() % 4 != 0 {
+                    let p = FREE_LIST[c][n - 1] as usize;
+                    let off = FREE_OFF[c][n - 1] as usize;
+                    if off % l.align() == 0 && off + l.size() <= PAGE {
+                        FREE_LEN[c] = (n - 1) as u8;
+                        mprotect((BASE + p * PAGE) as *mut u8, PAGE, 3);
+                        STATE[p] = HEAD;
+                        SIZE[p] = l.size() as u32;
+                        NPG[p] = 1;
+                        GEN[p] = GEN[p].wrapping_add(1);
+                        LIVE_BLOCKS.fetch_add(1, Relaxed);
+                        LIVE_BYTES.fetch_add(l.size(), Relaxed);
+                        REUSED.fetch_add(1, Relaxed);
+                        digest(0x2E05E ^ ((p as u64) << 16) ^ off as u64);
+                        return (BASE + p * PAGE + off) as *mut u8;
+                    }
+                }
+            }
+        }
         let start = (lrand() % PAGES as u64) as usize;
         let mut p = start;
         let mut scanned = 0usize;
@@ -179,6 +226,7 @@ unsafe impl GlobalAlloc for SimAlloc {
         STATE[p] = HEAD;
         SIZE[p] = l.size() as u32;
         NPG[p] = npages as u8;
+        GEN[p] = GEN[p].wrapping_add(1);
         touch(p);
         for q in p + 1..p + npages {
             STATE[q] = CONT;
@@ -218,6 +266,16 @@ unsafe impl GlobalAlloc for SimAlloc {
             FREE_COUNT.fetch_add(1, Relaxed);
             digest(0xF4EE ^ ((p as u64) << 16));
             mprotect((BASE + p * PAGE) as *mut u8, n * PAGE, 0);
+            if REUSE_ON.load(Relaxed) && n == 1 {
+                if let Some(c) = class_of(l.size()) {
+                    let k = FREE_LEN[c] as usize;
+                    if k < CLASS_CAP {
+                        FREE_LIST[c][k] = p as u32;
+                        FREE_OFF[c][k] = (a - BASE - p * PAGE) as u16;
+                        FREE_LEN[c] = (k + 1) as u8;
+                    }
+                }
+            }
             return;
         }
         if SUT.load(Relaxed) {
@@ -291,7 +349,20 @@ pub fn default_abort_signals() {
 }
 
 /// Forget everything the previous run did and restart placement from `layout_seed`.
+pub fn set_reuse(on: bool) {
+    REUSE_ON.store(on, Relaxed);
+}
+pub fn reused_blocks() -> usize {
+    REUSED.load(Relaxed)
+}
+
 pub fn reset(layout_seed: u64, arena_on: bool) {
+    unsafe {
+        for c in 0..NCLASS {
+            FREE_LEN[c] = 0;
+        }
+    }
+    REUSED.store(0, Relaxed);
     unsafe {
         let n = NTOUCHED.load(Relaxed);
         if n > 0 && READY.load(Relaxed) {
@@ -369,6 +440,23 @@ pub fn block_state(addr: usize) -> BlockState {
             _ => BlockState::Unknown,
         }
     }
+}
+
+/// Generation of the block that currently occupies (or last occupied) `addr`'s page.
+pub fn block_gen(addr: usize) -> u32 {
+    if addr < BASE || addr >= BASE + PAGES * PAGE {
+        return 0;
+    }
+    unsafe { GEN[(addr - BASE) / PAGE] }
+}
+
+/// State of the block that was at `addr` when its page had generation `gen`.
+pub fn block_state_gen(addr: usize, gen: u32) -> BlockState {
+    if block_gen(addr) != gen {
+        // the page has been handed out again since: that block is gone
+        return BlockState::Released;
+    }
+    block_state(addr)
 }
 
 pub fn page_index(addr: usize) -> usize {
